@@ -24,6 +24,12 @@ type structType struct {
 	fieldInfos []structFieldInfo // 偏移量对应的字段信息内容
 }
 
+// structTypeCacheKey 结构体类型缓存 key
+type structTypeCacheKey struct {
+	ty        reflect.Type
+	targetTag string
+}
+
 // structFieldInfo 结构体字段信息
 type structFieldInfo struct {
 	export     bool   // 是否可导出
@@ -227,7 +233,9 @@ func (v *VStruct) validate(structName string, value reflect.Value, isValidGather
 
 // getCacheStructType 获取缓存中的 reflect.Type
 func (v *VStruct) getCacheStructType(ty reflect.Type) structType {
-	if obj, ok := cacheStructType.Load(ty); ok {
+	// 同一个结构体可能有多个验证 tag, 所以 key 需要包含 targetTag
+	cacheKey := structTypeCacheKey{ty: ty, targetTag: v.targetTag}
+	if obj, ok := cacheStructType.Load(cacheKey); ok {
 		return obj.(structType)
 	}
 
@@ -247,7 +255,7 @@ func (v *VStruct) getCacheStructType(ty reflect.Type) structType {
 		}
 		obj.fieldInfos[fieldNum] = info
 	}
-	cacheStructType.Store(ty, obj)
+	cacheStructType.Store(cacheKey, obj)
 	return obj
 }
 
